@@ -5,7 +5,8 @@ V = os.path.dirname(os.path.dirname(os.path.abspath(__file__)))
 props = [json.loads(l)['id'] for l in open(os.path.join(V, 'properties.jsonl'))]
 
 TECH = "bounded symbolic execution of the real functions' go/ssa form (symgo) with SMT (z3, QF_BV) discharging every path obligation; counterexamples replayed natively"
-NOTE_COMMON = (" Trusted base: go/ssa construction, the symgo interpreter and its library intrinsics (each run re-executes path witnesses"
+NOTE_COMMON = (" Several properties also have units that drive the real cobra command tree (rootCmd.Execute) on an in-engine file system and compare with the library call."
+" Trusted base: go/ssa construction, the symgo interpreter and its library intrinsics (each run re-executes path witnesses"
                " concretely in the interpreter and in the native build and requires agreement), z3 5.1.0 (a sample of discharged obligations is re-checked with z3 4.8.12 and cvc5)."
                " Holds only within the stated bounds; see evidence.coverage.outside_bounds.")
 
@@ -54,7 +55,7 @@ CLAIMED = {
    note="Bounded family of annotation texts, not arbitrary text; GFF phase convention as in /repo's resources."),
  "C15": dict(
    text="Relational obligations on the real code: toMultiAlign window/pad vs untrimmed row (arbitrary raw row, all s<=e); toPairAlign trim = cut from column of base s to column of base e (arbitrary gapped pair); wrap only re-breaks lines (all widths); variants --start/--end alone or together keep exactly s<=p<=e (both writers); whole Variants() on stdin (hidden reader type, reference first) == file run.",
-   note="Legacy --trim/--trimstart/--trimend reconciliation in cmd/samtoma.go (cobra RunE closure) is NOT covered."),
+   note="Includes the real command line (cobra flag parsing on an in-engine file system): legacy --trim/--trimstart/--trimend vs --start/--end for every window and either bound alone; variants --msa stdin vs file."),
  "C16": dict(
    text="Each of the five real FASTA reading loops on N<=5/7 fully symbolic bytes (every value 0..255; plain-text reader ASCII) either yields records or an error on every feasible path, with no panic and no blocked channel operation; four readers agree on valid files under symbolic layout (line width, case, LF/CRLF, trailing newline, description) with score/counts of the sequence; each documented corruption is rejected by each reader.",
    note="bufio.Scanner/strings.Fields are engine models (stated in evidence.trusted_base); lines beyond 1 MiB outside."),
